@@ -340,6 +340,7 @@ def prep_trace(path, out):
         if e == "Reset":
             cur = r
             r["ops"] = []
+            r["hasstop"] = 0
             chunk = r["chunk"] if chunk is None else chunk
             if chunk != r["chunk"]:
                 raise Broken("one trace file must use one chunk size")
@@ -349,6 +350,8 @@ def prep_trace(path, out):
             maxops = max(maxops, r["o"])
         elif e == "Barrier":
             maxbars = max(maxbars, r["b"])
+        elif e == "StopCall":
+            cur["hasstop"] = 1
         elif e == "H":
             cur["ops"][r["o"] - 1].append({"n": r["n"], "done": r["done"], "null": r["null"], "err": r["err"]})
         elif e == "CH":     # the single handler invocation of dispatch_read / dispatch_write
@@ -393,7 +396,9 @@ def log_oracles(recs):
         if len(cleanups) != 1:
             bad.append("exec %d: cleanup handler ran %d times" % (x, len(cleanups)))
             continue
-        cpos = cleanups[0]
+        cpos = min([cleanups[0]] + [i for i, r in enumerate(ev) if r["e"] == "Cleanup2"])
+        if sum(1 for r in ev if r["e"] == "Cleanup2") > 1:
+            bad.append("exec %d: cleanup handler of the first channel ran more than once" % x)
         for i, r in enumerate(ev):
             e = r["e"]
             if e in ("Close", "StopCall"):
